@@ -76,7 +76,9 @@ class BaseFiles(Generic[Interface]):
         try:
             stat_result = os.stat(path)
             return stat_result, stat.S_ISREG(stat_result.st_mode)
-        except FileNotFoundError:
+        except (OSError, ValueError):
+            # not found, a path through a regular file (ENOTDIR), a name that
+            # is too long, an embedded null byte: there is no such file
             return None, False
 
     def if_none_match(self, etag: str, if_none_match: str) -> bool:
